@@ -160,6 +160,11 @@ class SDateTime:
             return False
         # both are valid datetimes; the microsecond count is injective on valid datetimes (A5, validated), so
         # equality of all fields is equality of the counts
+        _relate_years(self, o)
+        c = sym._CTX[0]
+        if c is not None and not all(isinstance(f, int) for f in self.fields() + o.fields()):
+            fields_eq = z3.And([lift(a) == lift(b) for a, b in zip(self.fields(), o.fields())])
+            c.pc.append(z3.Implies(self.us() == o.us(), fields_eq))      # injectivity instance (A5)
         return mk(self.us() == o.us())
 
     def __ne__(self, o):
